@@ -245,12 +245,59 @@ def g_utf8(rng, n):
                    for _ in range(n)).encode("utf8")
 
 
+# ---- "special value" rules: one scalar field of a section set to 0 / 1 / max, the rest as generated ------------
+I_ = "i"
+PSYS_L = [(4, I_), (4, I_), (1, I_), (2, I_), (2, I_), (1, I_), (1, I_), (2, I_), (2, I_), (2, I_), (2, I_), (1, I_)] \
+    + [(2, I_)] * 6 + [(16, I_), (16, I_)]                       # CRC, flags, pattern, ages, angles, burst.., vel, accel, texture, target
+PDATA_L = [(4, "skip"), (2, I_), (4, I_), (4, I_), (1, I_), (1, I_), (1, I_), (1, I_)]
+TA_L = [(1, I_), (1, I_), (1, I_), (1, I_), (4, "f"), (4, "f"), (4, "f")]
+XP_L = {0x10: [(1, I_)] * 4, 0x20: [(4, I_), (4, "f"), (4, "f"), (4, "f")], 0x30: [(16, I_), (1, I_)], 0x60: [(16, I_), (1, I_)],
+        0x40: [(16, I_), (4, "f"), (4, "f"), (4, "f")], 0x70: [(4, I_)], 0x90: [(4, "f"), (4, "f"), (1, I_)]}
+SCALARS = {"FullID": (16, I_), "ID": (4, I_), "State": (1, I_), "CRC": (4, I_), "Material": (1, I_), "ClickAction": (1, I_),
+           "OwnerID": (16, I_), "ParentID": (4, I_), "TreeSpecies": (1, I_), "TextColor": (4, I_), "Sound": (16, I_),
+           "SoundGain": (4, "f"), "SoundFlags": (1, I_), "SoundRadius": (4, "f"),
+           "Scale": (12, "v"), "Position": (12, "v"), "Rotation": (12, "v"), "AngularVelocity": (12, "v")}
+SCALARS.update({n: (w, I_) for n, w in PRIM})
+
+
+def _special_value(rng, w, kind):
+    if kind == "f":        # domain rule: no NaN / infinity -> max is the largest finite float
+        return struct.pack("<f", rng.choice([0.0, -0.0, 1.0, 3.4028234663852886e38, -3.4028234663852886e38]))
+    return rng.choice([bytes(w), b"\x01" + bytes(w - 1), b"\xff" * w])
+
+
+def specialize(rng, blob, layout, p=0.3):
+    """with probability p: ONE scalar field of the block becomes 0 / 1 / max, everything else stays as generated"""
+    if rng.random() >= p or sum(w for w, _ in layout) > len(blob):
+        return blob
+    idx = rng.choice([i for i, (w, k) in enumerate(layout) if k != "skip"])
+    off = sum(w for w, _ in layout[:idx])
+    w, k = layout[idx]
+    return blob[:off] + _special_value(rng, w, k) + blob[off + w:]
+
+
+def special_scalar(rng, name, blob, p=0.08):
+    """the same for a top-level scalar / vector field (one component of a vector)"""
+    if name not in SCALARS or rng.random() >= p:
+        return blob
+    w, k = SCALARS[name]
+    if len(blob) != w:
+        return blob
+    if k == "v":
+        c = rng.randrange(3)
+        return blob[:4 * c] + _special_value(rng, 4, "f") + blob[4 * c + 4:]
+    return _special_value(rng, w, k)
+
+
 def g_psys(rng):
-    return rng.randbytes(68)
+    b = specialize(rng, rng.randbytes(68), PSYS_L)
+    if rng.random() < 0.08:
+        b = bytes(4) + b[4:]      # a populated particle system whose CRC is 0
+    return b
 
 
 def g_pdata(rng, allow_ext):
-    fl = rng.getrandbits(11)
+    fl = rng.choice([0, 1, 0x7ff, rng.getrandbits(11), rng.getrandbits(11)])
     ext = b""
     if allow_ext:
         if rng.random() < 0.5:
@@ -259,10 +306,15 @@ def g_pdata(rng, allow_ext):
         if rng.random() < 0.5:
             fl |= 0x20000
             ext += bytes([rng.randrange(0, 12), rng.randrange(0, 12)])
-    return struct.pack("<I", fl) + rng.randbytes(14) + ext
+    return specialize(rng, struct.pack("<I", fl) + rng.randbytes(14), PDATA_L) + ext
 
 
 def g_psblock_legacy(rng):
+    m = rng.random()
+    if m < 0.06:
+        return bytes(86)                                                     # zero-filled block
+    if m < 0.12:
+        return b"\xff" * 68 + b"\xff\xff\xfc\xff" + b"\xff" * 14             # all FF (minus the glow / blend bits: no room)
     return g_psys(rng) + g_pdata(rng, False)
 
 
@@ -273,6 +325,11 @@ def g_psblock_new(rng):
     if m == 1:
         return g_psblock_legacy(rng)     # exactly 86 bytes left selects the legacy layout
     ps, pd = g_psys(rng), g_pdata(rng, True)
+    z = rng.random()
+    if z < 0.06:
+        ps, pd = bytes(68), bytes(18)
+    elif z < 0.12:
+        ps, pd = b"\xff" * 68, b"\xff" * 22
     return struct.pack("<i", len(ps)) + ps + struct.pack("<i", len(pd)) + pd
 
 
@@ -303,6 +360,8 @@ def g_extra(rng):
             d = bytes([n]) + b"".join(bytes([rng.randrange(256)]) + rng.randbytes(16) for _ in range(n))
         else:
             d = g_f32(rng) + g_f32(rng) + bytes([rng.randrange(4)])
+        if t in XP_L:
+            d = specialize(rng, d, XP_L[t], 0.25)
         out += struct.pack("<HI", t, len(d)) + d
     return out
 
@@ -371,8 +430,13 @@ def g_te(rng):
 
 
 def g_ta(rng):
-    return bytes([rng.getrandbits(7), rng.randrange(256), rng.randrange(256), rng.randrange(256)]) \
-        + g_f32(rng) + g_f32(rng) + g_f32(rng)
+    m = rng.random()
+    if m < 0.06:
+        return bytes(16)
+    if m < 0.12:
+        return b"\xff" * 4 + g_f32(rng) + g_f32(rng) + g_f32(rng)
+    return specialize(rng, bytes([rng.getrandbits(7), rng.randrange(256), rng.randrange(256), rng.randrange(256)])
+                      + g_f32(rng) + g_f32(rng) + g_f32(rng), TA_L)
 
 
 BOUNDARY_LENS = [0, 1, 254, 255, 256, 257, 511, 512, 513, 1000]
@@ -413,6 +477,8 @@ def gen_payload(rng, flags, pcode, hi_bits=0, text_len=None, url_len=None, big=F
         url_len = rng.choice(BOUNDARY_LENS)
 
     def add(name, framing, content):
+        if content is not None and name not in ("PCode", "Flags"):
+            content = special_scalar(rng, name, content)
         raw.append((name, framing, content))
 
     def on(name):
@@ -431,7 +497,8 @@ def gen_payload(rng, flags, pcode, hi_bits=0, text_len=None, url_len=None, big=F
     add("AngularVelocity", "fixed", g_f32(rng) + g_f32(rng) + g_f32(rng) if on("ANGULAR_VELOCITY") else None)
     add("ParentID", "fixed", rng.choice([bytes(4), rng.randbytes(4)]) if on("PARENT_ID") else None)
     add("TreeSpecies", "fixed", rng.randbytes(1) if on("TREE") else None)
-    add("ScratchPad", "u32", rng.randbytes(rng.choice([0, 1, 2, 5, 40])) if on("SCRATCHPAD") else None)
+    add("ScratchPad", "u32", rng.choice([rng.randbytes(rng.choice([0, 1, 2, 5, 40])), bytes(rng.choice([1, 4, 16])),
+                                         b"\xff" * rng.choice([1, 4, 16])]) if on("SCRATCHPAD") else None)
     add("Text", "nul", (g_utf8_len(rng, text_len) if text_len is not None else g_utf8(rng, rng.choice([0, 1, 3, 12])))
         if on("TEXT") else None)
     add("TextColor", "fixed", rng.randbytes(4) if on("TEXT") else None)
@@ -1075,7 +1142,7 @@ def run(chk: Check):
     allv = [1] if quick else [1, 2, 3]
     # exhaustive model, in the background while rows are replayed
     mcs = [("all flag words", _mc_cfg("all", [0], [9], allv, False)),
-           ("kinds x junk flag bits x variants", _mc_cfg(sel, [0, 2048, 63488], known + unknown, [1, 2, 3, 4], False))]
+           ("kinds x junk flag bits x variants", _mc_cfg(sel, [0, 2048, 63488], known + unknown, [1, 2, 3, 4, 5, 6], False))]
     if not quick:
         mcs.append(("variant product", _mc_cfg([2047, 1365], [0], [9], [1, 2, 3], True)))
     _SEEN.clear()
@@ -1088,7 +1155,7 @@ def run(chk: Check):
             for pc in kinds:
                 _replay_rows(chk, _export(chk, ("all", [0], [pc], allv, False), "all flag words pcode %d" % pc),
                              "all flag words")
-        _replay_rows(chk, _export(chk, (sel, [0, 2048, 63488], known + unknown, [1, 2, 3, 4], False),
+        _replay_rows(chk, _export(chk, (sel, [0, 2048, 63488], known + unknown, [1, 2, 3, 4, 5, 6], False),
                                   "kinds x junk flag bits x variants"), "kinds x junk flag bits x variants")
         if not quick:
             _replay_rows(chk, _export(chk, ([2047, 1365, 682], [0], [47], [1, 3], True), "variant product"), "variant product")
